@@ -1,5 +1,5 @@
 (* C19 - c-revision: compilations agree; the constraint system characterises acceptance by the revised ranking. *)
-From InfOCF Require Import Core Tol Form Model Crev ThmCrev ThmCrevInc PyLib TieCrev.
+From InfOCF Require Import Core Tol Form Model Crev ThmCrev ThmCrevInc PyLib PyInt TieCrev TieCrevCsp.
 From InfOCFGen Require Import SrcOcfCustom SrcCrev.
 From Coq Require Import ZArith.
 
@@ -64,6 +64,20 @@ Theorem C19_source_compilation_characterises_acceptance : forall n pr cs, NoDup 
 Proof. exact src_compilation_acceptance. Qed.
 Print Assumptions C19_source_compilation_characterises_acceptance.
 
+(* translate_to_csp (with symbolize_minima_expression and encoding; freshVars / minima_encoding from c_inference.py) is GENERATED too.
+   For every prior, every list of revision conditionals with distinct indices, both gamma modes and no fixed values: the constraints
+   it builds from the reference compilation have a solution with parameters gamma+ / gamma- (in the auxiliary minimum variables)
+   exactly when the revised ranking k*(w) = k(w) + sum gamma+ (verified) + sum gamma- (falsified) accepts every revision conditional;
+   non-negativity of the parameters is part of the constraints. *)
+Theorem C19_source_csp_solutions_are_the_accepting_parameters : forall n cs, NoDup (map ckey cs) -> forall pr gpz gp gm,
+  (gpz = true -> forall k, gp k = 0) -> exists csp,
+  py_translate_to_csp n (zcomp (fst (compile_alt cs pr)), zcomp (snd (compile_alt cs pr))) gpz tt tt = Return csp /\
+  forall sg, gamma_assignment gp gm sg ->
+    ((exists sg', (forall z, sg' (SGp z) = sg (SGp z) /\ sg' (SGm z) = sg (SGm z)) /\ csp_sat sg' csp = true)
+     <-> forallb (accepts_star cs pr gp gm) cs = true).
+Proof. exact tie_crev_chain. Qed.
+Print Assumptions C19_source_csp_solutions_are_the_accepting_parameters.
+
 Definition pr2 : prior := [([false;false],0);([false;true],1);([true;false],0);([true;true],1)].
 Definition c1 := {| ckey := 4; ccons := FVar 1; cante := FVar 0 |}.
 Definition c2 := {| ckey := 9; ccons := FNot (FVar 1); cante := FTop |}.
@@ -76,6 +90,8 @@ Proof. vm_compute. repeat split. Qed.
 Example crev_source_example : NoDup (map fst pr2) /\ (forall p, In p pr2 -> In (fst p) (worlds 2)) /\ NoDup (map ckey [c1;c2])
   /\ py_compile_alt 2 (fun w => py_CustomPreOCF_rank_world 2 (zprior pr2) w false) (zprior pr2) [c1;c2]
      = Return (zcomp (fst (compile_alt [c1;c2] pr2)), zcomp (snd (compile_alt [c1;c2] pr2)))
-  /\ fst (compile_alt [c1;c2] pr2) = [(4, [(1, [], [9])]); (9, [(0, [], []); (0, [], [4])])].
+  /\ fst (compile_alt [c1;c2] pr2) = [(4, [(1, [], [9])]); (9, [(0, [], []); (0, [], [4])])]
+  /\ (exists csp, py_translate_to_csp 2 (zcomp (fst (compile_alt [c1;c2] pr2)), zcomp (snd (compile_alt [c1;c2] pr2))) false tt tt = Return csp /\ length csp = 16).
 Proof. split; [repeat constructor; simpl; intuition discriminate|]. split; [intros p Hp; simpl in Hp; simpl; intuition (subst; simpl; auto)|].
-  split; [repeat constructor; simpl; intuition discriminate|]. split; vm_compute; reflexivity. Qed.
+  split; [repeat constructor; simpl; intuition discriminate|]. split; [vm_compute; reflexivity|]. split; [vm_compute; reflexivity|].
+  eexists. split; vm_compute; reflexivity. Qed.
